@@ -147,6 +147,10 @@ func tag(t *rapid.T) string {
 func descText(t *rapid.T) string {
 	words := rapid.SliceOfN(rapid.SampledFrom([]string{"word", "a", "the", "description", "of", "x", "supercalifragilisticexpialidocious_long_word_that_exceeds", "é名", "//", "|", "{", "\"q\"", "end."}), 0, 24).Draw(t, "dwords")
 	sep := rapid.SampledFrom([]string{" ", " ", "  "}).Draw(t, "dsep")
+	if rapid.IntRange(0, 3).Draw(t, "dtail") == 0 {
+		// a line that ends like a piece of structure
+		words = append(words, rapid.SampledFrom([]string{"{", "}", "[", "]", "=", "|", "//", "/*", "*/", "\\", ",", ":", "\u3000", "\u00a0\u00a0", "\u2028", "x\u3000\u3000"}).Draw(t, "dtailtok"))
+	}
 	return strings.Join(words, sep)
 }
 
@@ -283,6 +287,16 @@ func (g *gen) statement(depth int, budget *int) {
 				g.cls("description-paragraph")
 			}
 			g.emit(g.indent(depth) + "|" + ws(t) + txt)
+		}
+		if rapid.IntRange(0, 2).Draw(t, "descagain") == 0 {
+			// a second description statement, separated by blank lines only
+			g.cls("description-after-description")
+			for i := rapid.IntRange(1, 2).Draw(t, "descgap"); i > 0; i-- {
+				g.emit("")
+			}
+			for i := rapid.IntRange(1, 2).Draw(t, "ndesc2"); i > 0; i-- {
+				g.emit(g.indent(depth) + "|" + ws(t) + descText(t))
+			}
 		}
 	case 9, 10: // line comment
 		g.cls("line-comment")
